@@ -221,7 +221,7 @@ fn arb_number() -> impl Strategy<Value = f64> {
     ]
 }
 
-fn arb_value() -> impl Strategy<Value = JV> {
+pub fn arb_value() -> impl Strategy<Value = JV> {
     let leaf = prop_oneof![
         1 => Just(JV::Null),
         1 => any::<bool>().prop_map(JV::Bool),
